@@ -9,7 +9,7 @@ import pgncorr
 
 PROP_FILES = ["N2k/Props/C08.lean", "N2k/Tables/TMisc.lean"]
 LEAN_TARGETS = ["N2k.Props.C08"]
-SUITE_NAMES = ["gen-dispatchers"]
+SUITE_NAMES = ["gen-dispatchers", "decoder-histories"]
 ASSUMPTIONS = ["Spec.compileDisp / Spec.select are this framework's reading of what the database demands (the Jinja generator cannot be run here)"]
 TRUSTED_EXTRA = ["C08: T1 translator tools/translate_tables.py (Python ast -> Lean data); validated end-to-end by running the translated dispatcher tables against the real decode_pgn_<PGN> functions"]
 
@@ -19,7 +19,31 @@ def problem_relevant(p):
 
 
 def correspondence(ctx):
-    return pgncorr.suite_dispatchers(ctx, 30 if ctx["tier"] == "quick" else 400)
+    import deccorr
+    return pgncorr.suite_dispatchers(ctx, 30 if ctx["tier"] == "quick" else 400) + deccorr.suite_histories(ctx)
+
+
+def _public_path(ctx, pgns, db, rnd):
+    """selection through a live decoder: earlier payloads of the PGN (matching or not) must not influence the selection"""
+    from nmea2000.decoder import NMEA2000Decoder
+    n = 0
+    for pgn, g in db.groups.items():
+        if not db.is_complex(pgn):
+            continue
+        d = NMEA2000Decoder()
+        for x in pgncorr.match_payloads(db, pgn, rnd, 6):
+            n += 1
+            exp = spec_select(g, x)
+            nb = max(1, (x.bit_length() + 7) // 8)
+            line = "2024-01-01-00:00:00.000,6,%d,7,255,%d,%s" % (pgn, nb, ",".join("%02x" % b for b in x.to_bytes(nb, "little")))
+            try:
+                m = d.decode_basic_string(line, True)
+                got = m.id if m is not None else None
+            except Exception:
+                continue          # the selected definition's decoder raised: which one was selected is not observable here
+            if got != exp:
+                return {"pgn": pgn, "payload": x, "expected": exp, "got": got}, n
+    return None, n
 
 
 def spec_select(group, x):
@@ -72,11 +96,18 @@ def search(ctx, broken, corr_broken):
                 LAST_SEARCH_CANDIDATES = n
                 return [{"key": f"C08/selection/{pgn}/{exp}-vs-{got}", "what": f"PGN {pgn} payload {x}: database rule selects {exp}, the code selects {got}",
                          "replay": {"kind": "selection", "pgn": pgn, "payload": str(x), "expected": exp}}]
-    LAST_SEARCH_CANDIDATES = n
+    hit, n2 = _public_path(ctx, pgns, db, rnd)
+    LAST_SEARCH_CANDIDATES = n + n2
+    if hit:
+        return [{"key": f"C08/selection-live-decoder/{hit['pgn']}/{hit['expected']}-vs-{hit['got']}",
+                 "what": f"PGN {hit['pgn']} payload {hit['payload']} through a decoder that has seen other payloads of this PGN: database rule selects {hit['expected']}, the decoder returns {hit['got']}",
+                 "replay": {"kind": "selection-live", "pgn": hit["pgn"], "payload": str(hit["payload"]), "expected": hit["expected"]}}]
     return []
 
 
 def replay(rp):
+    if rp.get("kind") == "selection-live":
+        return False, rp["what"]
     if rp.get("kind") != "selection":
         return False, "not an input replay: " + str(rp.get("broken_theorems") or rp.get("broken_correspondence"))[:500]
     harness.load_repo()
